@@ -30,6 +30,7 @@ RULE = ("quotes built from real ed25519 keys: valid quotes; every single-field a
         "peer, other content, inside / outside the 10 s window, junk signature, undecodable key) and verify_quote_for_storecost "
         "cases (address match / mismatch / peer address, expiry boundary, signature).  A case is distinct/non-trivial by (op, family, outcome)")
 ASSUMPTIONS = [
+    "all harness runs happen under an always-on tracing subscriber (every level enabled, every event's fields formatted)",
     "ed25519 signatures are modelled symbolically (Sig key msg | Junk): EUF-CMA plus 'a signature string is valid "
     "for at most one (key, message)'; the harness knows which key signed which bytes and reports that symbol",
     "libp2p-identity (protobuf key decoding, PeerId derivation and parsing) is an oracle: its results are reported "
